@@ -603,14 +603,7 @@ func (pr *ProtoArray) OnPrune(ctx context.Context, anchorRoot Root, anchorSlot S
 		// nothing to do
 		return nil
 	}
-	// Get the head, it will help quickly determine if pruned nodes are canonical
-	head, err := pr.FindHead(anchorRoot, anchorSlot)
-	if err != nil {
-		return err
-	}
-	if _, ok := pr.indices[head]; !ok {
-		return HeadUnknownErr
-	}
+	var err error
 	// The pruned nodes on the transition path to the anchor are canonical: the blocks and the
 	// (pre-block and gap) slots that lead to it. Best-descendant links only follow forkchoice
 	// parents, and miss the slot nodes between a block and its parent.
